@@ -568,5 +568,10 @@ func MavenInDomain(s string) bool {
 	if m[4] != "" && strings.Trim(m[4], "-.0") == "" {
 		return false
 	}
+	// Likewise a build number that is zero ("1.2-0-SNAPSHOT"): whether the
+	// zero is dropped depends on what follows it in Maven's normalisation.
+	if m[6] != "" && strings.Trim(m[6], "0") == "" {
+		return false
+	}
 	return true
 }
